@@ -13,6 +13,7 @@ def scenario(args):
     import srvworld as SW
     w = SW.ServerWorld(seed=seed, interval=kw["interval"], conn_timeout=kw["conn_timeout"], keepalive=kw["srv_ka"], temp_timeout=kw.get("temp_timeout"), msg_timeout=kw.get("srv_mt"), late_config=kw.get("late_config", False))
     w.client_substeps = kw.get("client_substeps", 1)
+    w.broadcast = kw.get("broadcast", False)
     try:
         tps = int(round(1 / kw["interval"]))           # ticks per second
         order = kw.get("setters", ())                   # sequence of ("ka"|"mt"|"ct", value, "before"|"after")
@@ -104,6 +105,16 @@ def run(ctx):
     for cf in slow:
         jobs.append((ctx.seed, dict(cf, idle=12.0)))
         names.append("idle, first answer slower than the client's message time-out %s" % cf)
+    # a server that always has something to say (state to every client on every tick) still notices a peer that went silent, at every tick rate; and the
+    # link of a client that is spoken to all the time stays up
+    for interval in (1 / 60, 1 / 30, 1 / 20):
+        for ct in (1.0, 2.0):
+            cf = dict(interval=interval, srv_ka=0.1, conn_timeout=ct, broadcast=True)
+            jobs.append((ctx.seed, dict(cf, idle=6.0)))
+            names.append("idle under a per-tick broadcast %s" % cf)
+            for cut in (0, 3, 7):
+                jobs.append((ctx.seed, dict(cf, idle=1.0, cut_after=cut)))
+                names.append("cut@%d under a per-tick broadcast %s" % (cut, cf))
     # idle links stay up; cut at every tick of one keep-alive period
     for cf in confs:
         tps = int(round(1 / cf["interval"]))
